@@ -56,6 +56,7 @@ class ClassInfo:
         self.name = node.name
         self.base_names: List[str] = [norm(b) for b in node.bases]
         self.methods: Dict[str, "Func"] = {}
+        self.all_methods: List["Func"] = []  # including same-named defs (property getter/setter pairs)
         self.bases: List["ClassInfo"] = []  # resolved repo classes
 
     @property
@@ -235,7 +236,7 @@ class Tree:
 
     def _index_scope(self, m: Module, body, parent: Optional[Func], cls: Optional[ClassInfo], top=False):
         """Index defs found (at any statement depth, not through nested defs) in body."""
-        stack = list(body)
+        stack = list(reversed(body))  # popped in source order
         while stack:
             n = stack.pop()
             if isinstance(n, (ast.FunctionDef, ast.AsyncFunctionDef)):
@@ -246,7 +247,8 @@ class Tree:
                 if parent is not None:
                     parent.children[n.name] = f
                 elif cls is not None and is_method:
-                    cls.methods[n.name] = f
+                    cls.methods[n.name] = f  # the later def wins, as in Python
+                    cls.all_methods.append(f)
                 elif cls is None:
                     m.functions[n.name] = f
                 self._index_scope(m, n.body, f, cls)
@@ -266,7 +268,7 @@ class Tree:
                     owner.lambdas.append(f)
                 self._index_scope(m, [n.body], f, cls)
             else:
-                stack.extend(ast.iter_child_nodes(n))
+                stack.extend(reversed(list(ast.iter_child_nodes(n))))
 
     def _resolve_bases(self) -> None:
         for lst in self.classes.values():
